@@ -79,3 +79,138 @@ pub fn hash_eq(a: &[u8; 32], b: &[u8; 32]) -> (r: bool)
 pub fn vreverse_records(v: &mut Vec<EventRecord>)
     ensures final(v)@.len() == old(v)@.len(), forall|i: int| 0 <= i < old(v)@.len() ==> #[trigger] final(v)@[i] == old(v)@[old(v)@.len() - 1 - i],
 { v.reverse() }
+
+/// sos_core::events::WriteEvent (crates/core/src/events/write.rs) — used by this unit as a TYPE PARAMETER only
+/// (`FileSystemEventLog<WriteEvent, E>`); its codec is PROVED in units/codec.vrs, here it is opaque.
+#[verifier::external_body]
+pub struct WriteEvent { _p: () }
+pub uninterp spec fn writeevent_view(x: WriteEvent) -> int;
+pub uninterp spec fn writeevent_enc(v: int) -> Seq<u8>;
+pub uninterp spec fn writeevent_valid(v: int) -> bool;
+pub uninterp spec fn writeevent_dec(s: Seq<u8>) -> Option<(int, Seq<u8>)>;
+impl Default for WriteEvent {
+    #[verifier::external_body]
+    fn default() -> Self { unimplemented!() }
+}
+impl Encodable for WriteEvent {
+    type EV = int;
+    open spec fn eview(&self) -> int { writeevent_view(*self) }
+    open spec fn enc_of(v: int) -> Seq<u8> { writeevent_enc(v) }
+    open spec fn enc_valid(v: int) -> bool { writeevent_valid(v) }
+    #[verifier::external_body]
+    fn encode<W: AsyncWrite + AsyncSeek + Unpin + Send>(&self, writer: &mut BinaryWriter<W>) -> (r: pre::Result<()>) { unimplemented!() }
+}
+impl Decodable for WriteEvent {
+    type DV = int;
+    open spec fn dview(&self) -> int { writeevent_view(*self) }
+    open spec fn dec_of(s: Seq<u8>) -> Option<(int, Seq<u8>)> { writeevent_dec(s) }
+    open spec fn dec_ready(&self) -> bool { true }
+    #[verifier::external_body]
+    fn decode<R: AsyncRead + AsyncSeek + Unpin + Send>(&mut self, reader: &mut BinaryReader<R>) -> (r: pre::Result<()>) { unimplemented!() }
+}
+
+/// sos_core::events::AccountEvent (crates/core/src/events/account.rs) — used by this unit as a TYPE PARAMETER only
+/// (`FileSystemEventLog<AccountEvent, E>`); its codec is PROVED in units/codec.vrs, here it is opaque.
+#[verifier::external_body]
+pub struct AccountEvent { _p: () }
+pub uninterp spec fn accountevent_view(x: AccountEvent) -> int;
+pub uninterp spec fn accountevent_enc(v: int) -> Seq<u8>;
+pub uninterp spec fn accountevent_valid(v: int) -> bool;
+pub uninterp spec fn accountevent_dec(s: Seq<u8>) -> Option<(int, Seq<u8>)>;
+impl Default for AccountEvent {
+    #[verifier::external_body]
+    fn default() -> Self { unimplemented!() }
+}
+impl Encodable for AccountEvent {
+    type EV = int;
+    open spec fn eview(&self) -> int { accountevent_view(*self) }
+    open spec fn enc_of(v: int) -> Seq<u8> { accountevent_enc(v) }
+    open spec fn enc_valid(v: int) -> bool { accountevent_valid(v) }
+    #[verifier::external_body]
+    fn encode<W: AsyncWrite + AsyncSeek + Unpin + Send>(&self, writer: &mut BinaryWriter<W>) -> (r: pre::Result<()>) { unimplemented!() }
+}
+impl Decodable for AccountEvent {
+    type DV = int;
+    open spec fn dview(&self) -> int { accountevent_view(*self) }
+    open spec fn dec_of(s: Seq<u8>) -> Option<(int, Seq<u8>)> { accountevent_dec(s) }
+    open spec fn dec_ready(&self) -> bool { true }
+    #[verifier::external_body]
+    fn decode<R: AsyncRead + AsyncSeek + Unpin + Send>(&mut self, reader: &mut BinaryReader<R>) -> (r: pre::Result<()>) { unimplemented!() }
+}
+
+/// sos_core::events::DeviceEvent (crates/core/src/events/device.rs) — used by this unit as a TYPE PARAMETER only
+/// (`FileSystemEventLog<DeviceEvent, E>`); its codec is PROVED in units/codec.vrs, here it is opaque.
+#[verifier::external_body]
+pub struct DeviceEvent { _p: () }
+pub uninterp spec fn deviceevent_view(x: DeviceEvent) -> int;
+pub uninterp spec fn deviceevent_enc(v: int) -> Seq<u8>;
+pub uninterp spec fn deviceevent_valid(v: int) -> bool;
+pub uninterp spec fn deviceevent_dec(s: Seq<u8>) -> Option<(int, Seq<u8>)>;
+impl Default for DeviceEvent {
+    #[verifier::external_body]
+    fn default() -> Self { unimplemented!() }
+}
+impl Encodable for DeviceEvent {
+    type EV = int;
+    open spec fn eview(&self) -> int { deviceevent_view(*self) }
+    open spec fn enc_of(v: int) -> Seq<u8> { deviceevent_enc(v) }
+    open spec fn enc_valid(v: int) -> bool { deviceevent_valid(v) }
+    #[verifier::external_body]
+    fn encode<W: AsyncWrite + AsyncSeek + Unpin + Send>(&self, writer: &mut BinaryWriter<W>) -> (r: pre::Result<()>) { unimplemented!() }
+}
+impl Decodable for DeviceEvent {
+    type DV = int;
+    open spec fn dview(&self) -> int { deviceevent_view(*self) }
+    open spec fn dec_of(s: Seq<u8>) -> Option<(int, Seq<u8>)> { deviceevent_dec(s) }
+    open spec fn dec_ready(&self) -> bool { true }
+    #[verifier::external_body]
+    fn decode<R: AsyncRead + AsyncSeek + Unpin + Send>(&mut self, reader: &mut BinaryReader<R>) -> (r: pre::Result<()>) { unimplemented!() }
+}
+
+/// sos_core::events::FileEvent (crates/core/src/events/file.rs) — used by this unit as a TYPE PARAMETER only
+/// (`FileSystemEventLog<FileEvent, E>`); its codec is PROVED in units/codec.vrs, here it is opaque.
+#[verifier::external_body]
+pub struct FileEvent { _p: () }
+pub uninterp spec fn fileevent_view(x: FileEvent) -> int;
+pub uninterp spec fn fileevent_enc(v: int) -> Seq<u8>;
+pub uninterp spec fn fileevent_valid(v: int) -> bool;
+pub uninterp spec fn fileevent_dec(s: Seq<u8>) -> Option<(int, Seq<u8>)>;
+impl Default for FileEvent {
+    #[verifier::external_body]
+    fn default() -> Self { unimplemented!() }
+}
+impl Encodable for FileEvent {
+    type EV = int;
+    open spec fn eview(&self) -> int { fileevent_view(*self) }
+    open spec fn enc_of(v: int) -> Seq<u8> { fileevent_enc(v) }
+    open spec fn enc_valid(v: int) -> bool { fileevent_valid(v) }
+    #[verifier::external_body]
+    fn encode<W: AsyncWrite + AsyncSeek + Unpin + Send>(&self, writer: &mut BinaryWriter<W>) -> (r: pre::Result<()>) { unimplemented!() }
+}
+impl Decodable for FileEvent {
+    type DV = int;
+    open spec fn dview(&self) -> int { fileevent_view(*self) }
+    open spec fn dec_of(s: Seq<u8>) -> Option<(int, Seq<u8>)> { fileevent_dec(s) }
+    open spec fn dec_ready(&self) -> bool { true }
+    #[verifier::external_body]
+    fn decode<R: AsyncRead + AsyncSeek + Unpin + Send>(&mut self, reader: &mut BinaryReader<R>) -> (r: pre::Result<()>) { unimplemented!() }
+}
+
+/// `#[derive(Default)]` on CommitTree (crates/core/src/commit/tree.rs:8): every
+/// field default — MerkleTree::default() = new() (prelude/tree_merkle.rs), both
+/// options None — i.e. the value `CommitTree::new()` builds.  ASSUMPTION (derive
+/// expansion is not verified text).
+impl Default for CommitTree {
+    #[verifier::external_body]
+    fn default() -> (r: CommitTree)
+        ensures
+            r.lv() == Seq::<Seq<u8>>::empty() && r.pending() == Seq::<Seq<u8>>::empty() && r.history() == Seq::<Seq<Seq<u8>>>::empty(),
+            r.inv(),
+    { unimplemented!() }
+}
+
+/// R12: `$s.to_vec()` on `&[u8]`
+#[verifier::external_body]
+pub fn vto_vec_u8(s: &[u8]) -> (r: Vec<u8>)
+    ensures r@ == s@,
+{ s.to_vec() }
